@@ -120,6 +120,50 @@ m("C20-method-handwritten-cache-decl", "apischema/deserialization/__init__.py",
   "_methods: dict = {}\n\n\n@dataclasses.dataclass(frozen=True)\nclass DeserializationMethodFactory:")
 
 
+# ---------------------------------------------------------------- behaviour-preserving patches
+B = []
+
+
+def b(name, edits):
+    B.append((name, [(f, o, n, 1) for f, o, n in edits]))
+
+
+b("benign-lazy-conversion-locked-memo", [("apischema/conversions/conversions.py",
+  "        object.__setattr__(self, \"get\", lru_cache(1)(self.get))\n",
+  "        import threading\n\n        getter, state, lock = self.get, [], threading.Lock()\n\n        def get():\n"
+  "            if not state:\n                with lock:\n                    if not state:\n"
+  "                        state.append(getter())\n            return state[0]\n\n"
+  "        object.__setattr__(self, \"get\", get)\n")])
+b("benign-method-dict-and-lock", [
+  ("apischema/deserialization/__init__.py",
+   "    @lru_cache()\n    def _method(self) -> DeserializationMethod:\n        return self.factory(self.constraints, self.validators)\n",
+   "    def _method(self) -> DeserializationMethod:\n        with _methods_lock:\n            if self not in _methods:\n"
+   "                _methods[self] = self.factory(self.constraints, self.validators)\n            return _methods[self]\n"),
+  ("apischema/deserialization/__init__.py",
+   "@dataclasses.dataclass(frozen=True)\nclass DeserializationMethodFactory:",
+   "import threading\n\n_methods: dict = {}\n_methods_lock = threading.RLock()\n\n\n@dataclasses.dataclass(frozen=True)\nclass DeserializationMethodFactory:")])
+b("benign-recmethod-locked", [("apischema/deserialization/methods.py",
+  "        if self.method is None:\n            self.method = self.lazy()\n        return self.method.deserialize(data)",
+  "        if self.method is None:\n            with _rec_lock:\n                if self.method is None:\n"
+  "                    self.method = self.lazy()\n        return self.method.deserialize(data)\n\n\nimport threading  # noqa: E402\n\n_rec_lock = threading.RLock()")])
+b("benign-ordered-registry", [("apischema/conversions/converters.py",
+  "_serializers: MutableMapping[AnyType, ConvOrFunc] = CacheAwareDict({})",
+  "from collections import OrderedDict  # noqa: E402\n\n_serializers: MutableMapping[AnyType, ConvOrFunc] = CacheAwareDict(OrderedDict())")])
+b("benign-double-reset-and-rename", [
+  ("apischema/cache.py", "        self.wrapped[key] = value\n        reset()\n", "        self.wrapped[key] = value\n        reset()\n        reset()\n"),
+  ("apischema/recursion.py", "_recursion_lock = RLock()", "_analysis_lock = RLock()"),
+  ("apischema/recursion.py", "    with _recursion_lock:", "    with _analysis_lock:")])
+b("benign-nested-locks-consistent-order", [
+  ("apischema/recursion.py", "def recursion_cache(checker_cls: Type[RecursiveChecker]) -> Dict[RecursionKey, bool]:\n    return {}",
+   "def recursion_cache(checker_cls: Type[RecursiveChecker]) -> Dict[RecursionKey, bool]:\n    with _inner_lock:\n        return {}"),
+  ("apischema/recursion.py", "_recursion_lock = RLock()", "_recursion_lock = RLock()\n_inner_lock = RLock()")])
+b("benign-fields-set-update", [("apischema/fields.py",
+  "            self.__dict__[FIELDS_SET_ATTR].add(attr)", "            self.__dict__[FIELDS_SET_ATTR].update((attr,))")])
+b("benign-visit-reorder-under-lock", [("apischema/recursion.py",
+  "            self._guard_indices[rec_key] = len(self._guard)\n            self._guard.append(rec_key)\n",
+  "            self._guard.append(rec_key)\n            self._guard_indices[rec_key] = len(self._guard) - 1\n")])
+
+
 def main():
     out = os.path.join(os.path.dirname(os.path.dirname(os.path.abspath(__file__))), "mutants")
     os.makedirs(out, exist_ok=True)
@@ -152,6 +196,20 @@ def main():
             subprocess.run(["git", "-C", d, "checkout", "-q", "--", "."], check=True)
             r = subprocess.run(["/venv/bin/python", "-m", "compileall", "-q", os.path.join(d, "apischema")], capture_output=True)
         print("wrote %d patches" % len(merged))
+        bout = os.path.join(os.path.dirname(out), "benign")
+        os.makedirs(bout, exist_ok=True)
+        for name, edits in B:
+            for file, old, new, count in edits:
+                p = os.path.join(d, file)
+                s = open(p).read()
+                if s.count(old) < 1:
+                    print("!! %s: pattern not found in %s" % (name, file))
+                    continue
+                open(p, "w").write(s.replace(old, new, count))
+            diff = subprocess.run(["git", "-C", d, "diff"], capture_output=True, text=True).stdout
+            open(os.path.join(bout, name + ".patch"), "w").write(diff)
+            subprocess.run(["git", "-C", d, "checkout", "-q", "--", "."], check=True)
+        print("wrote %d benign patches" % len(B))
     finally:
         subprocess.run(["git", "-C", "/repo", "worktree", "remove", "--force", d])
 
